@@ -61,6 +61,10 @@ type TumblingWindow struct {
 	size time.Duration
 	// mu protects concurrent access to window data
 	mu sync.RWMutex
+	// sendMu orders the results that leave the window: it is taken while mu is still
+	// held and kept until the send finished, so a late update cut after a firing can
+	// never overtake that firing on the way to the output channel.
+	sendMu sync.Mutex
 	// data stores collected data within the window
 	data []types.Row
 	// outputChan is a channel for sending data when window triggers
@@ -242,30 +246,23 @@ func (tw *TumblingWindow) Add(data any) {
 		tw.currentSlot.Start.UnixMilli(), tw.currentSlot.End.UnixMilli(),
 		tw.currentSlot.Contains(eventTime))
 
-	// Late data (event time): keep only what will actually be processed — a row in
-	// the current not-yet-triggered window, or (when AllowedLateness > 0) a row
-	// landing in a triggered window still open for late updates. Drop the rest so
-	// tw.data cannot grow without bound under sustained out-of-order input.
+	// Late data (event time, timestamp older than the watermark). What happens to
+	// the row depends only on the watermark and the row's own window, never on how
+	// far the trigger goroutine has got:
+	//   - watermark >= window end + AllowedLateness: the window is closed for good, drop;
+	//   - the window fired and is still open for late updates: re-emit it with the row;
+	//   - the window was passed while empty: drop (nothing to update);
+	//   - otherwise the window has not fired yet: the row triggers normally, keep it.
 	if timeChar == types.EventTime && tw.watermark != nil && tw.watermark.IsEventTimeLate(eventTime) {
+		winEnd := alignWindowStart(eventTime, tw.size).Add(tw.size)
+		wm := tw.watermark.GetCurrentWatermark()
+		_, fired := tw.triggeredWindows[tw.getWindowKey(winEnd)]
 		switch {
-		case tw.initialized && tw.currentSlot != nil && tw.currentSlot.Contains(eventTime):
-			// watermark advanced past the window start but the window has not
-			// triggered yet; the row triggers normally, keep it.
-		case tw.config.AllowedLateness > 0:
-			placed := false
-			for _, info := range tw.triggeredWindows {
-				if info.slot.Contains(eventTime) {
-					tw.handleLateData(eventTime, tw.config.AllowedLateness)
-					placed = true
-					break
-				}
-			}
-			if !placed {
-				// beyond allowed lateness with no open triggered window: drop
-				tw.dropLastRow()
-			}
-		default:
-			// AllowedLateness == 0 (default) and not in the current window: drop
+		case !wm.Before(winEnd.Add(tw.config.AllowedLateness)):
+			tw.dropLastRow()
+		case fired:
+			tw.handleLateData(eventTime, tw.config.AllowedLateness)
+		case tw.currentSlot != nil && !tw.currentSlot.Start.Before(winEnd):
 			tw.dropLastRow()
 		}
 	}
@@ -541,12 +538,14 @@ func (tw *TumblingWindow) checkAndTriggerWindows(watermarkTime time.Time) {
 
 			if len(resultData) > 0 {
 				callback := tw.callback
+				tw.sendMu.Lock()
 				tw.mu.Unlock()
 				verifhook.Point("tumbling.trigger.unlocked")
 				if callback != nil {
 					callback(resultData)
 				}
 				tw.sendResult(resultData)
+				tw.sendMu.Unlock()
 				tw.mu.Lock()
 			}
 
@@ -616,12 +615,14 @@ func (tw *TumblingWindow) handleLateData(eventTime time.Time, allowedLateness ti
 			resultData := tw.extractLateUpdateDataLocked(info.slot)
 			if len(resultData) > 0 {
 				callback := tw.callback
+				tw.sendMu.Lock()
 				tw.mu.Unlock()
 				verifhook.Point("tumbling.late.unlocked")
 				if callback != nil {
 					callback(resultData)
 				}
 				tw.sendResult(resultData)
+				tw.sendMu.Unlock()
 				tw.mu.Lock()
 			}
 			return
@@ -829,6 +830,7 @@ func (tw *TumblingWindow) Trigger() {
 	callback := tw.callback
 
 	// Release lock before calling callback and sending to channel to avoid blocking
+	tw.sendMu.Lock()
 	tw.mu.Unlock()
 
 	if callback != nil {
@@ -837,6 +839,7 @@ func (tw *TumblingWindow) Trigger() {
 
 	// Use sendResult to respect overflow strategy
 	tw.sendResult(resultData)
+	tw.sendMu.Unlock()
 }
 
 // Reset resets tumbling window data
